@@ -935,6 +935,9 @@ class Exec(Path):
                     cnode, owner = self.repo.lookup_class_attr(ci, attr)
                     if cnode is not None:
                         return self.eval_const_expr(cnode, owner.module)
+                    for c in self.repo.mro(ci):
+                        if attr in c.nested:
+                            return VClass(c.nested[attr].qualname, c.nested[attr])
                 else:
                     hook = self.reg.methods.get(("obj:" + ci, "@" + attr))
                     if hook is not None:
@@ -1855,6 +1858,9 @@ class Exec(Path):
                     selfobj.fields[fld] = self.make_symbolic(f"{info.name}_{fld}", ft)
             for gname in c.extra.get("ghost_out", {}):
                 self.ghost[gname] = self.fresh("ghost_" + gname, BYTES)       # constrained by the ensures clauses below
+            for wname, wtype in c.extra.get("exists", {}).items():
+                # names of the callee's own locals / ghosts that its postcondition mentions: existential witnesses here
+                self.env[wname] = self.make_symbolic(f"{info.name}_{wname}", wtype)
             result = self.make_symbolic("result_" + info.name, c.returns) if c.returns else VNone()
             self.env["result"] = result
             saved_old = self.old
@@ -1880,6 +1886,10 @@ class Exec(Path):
             if post:
                 post(self, bound, result)
             self.old = saved_old
+            if self.solver.check() == z3.unsat:
+                # the callee's postcondition contradicts what is known at the call site (typically a missing `modifies`):
+                # continuing would make everything after this call vacuously true
+                raise ContractError(f"postcondition of {info.qualname} is contradictory at this call site (missing modifies?)")
             return result
         finally:
             self.frames.pop()
